@@ -526,7 +526,7 @@ impl KeyT for Key24 {
 // ------------------------------------------------------------------ HashTable elements
 /// Element trait for the explicit-hash table worlds. The hash is stored in the element when
 /// there is room, otherwise the world keeps a constant hash.
-pub trait ElemT: Send + Sync + 'static {
+pub trait ElemT: Clone + Send + Sync + 'static {
     const NAME: &'static str;
     const HAS_SERIAL: bool;
     const HAS_DROP: bool;
